@@ -61,10 +61,41 @@ def uq(n):
     return "".join(chr(48 + i) for i in range(n))
 
 
+def _sweep(cutter, ads, cfg, R, times, action, res):
+    from cutadapt.info import ModificationInfo
+    from dnaio import SequenceRecord
+
+    V = res["viol"]
+    for r in R:
+        n = len(r)
+        q = uq(n)
+        rec = SequenceRecord("r", r, q)
+        info = ModificationInfo(rec)
+        out = cutter(rec, info)
+        res["evals"] += 1
+        matches, kept = refpipe.adapter_rounds(ads, r, times)
+        es, eq = refpipe.apply_action(r, q, matches, kept, action)
+        if len(matches) >= 1:
+            res["nontrivial"] += 1
+        if len(matches) >= 2:
+            res["multi_round"] += 1
+        got_names = [m.adapter.name for m in info.matches]
+        exp_names = [m.name for m in matches]
+        if out.sequence != es or out.qualities != eq:
+            V.append((f"{action}:read", "trimmed read differs from the stated rules (best score, fewer errors, first given; one "
+                      "adapter per round on the already trimmed read; action applied once to the original read)",
+                      dict(cfg, read=r, got=[out.sequence, out.qualities], expected=[es, eq], rounds=exp_names)))
+        elif got_names != exp_names:
+            V.append((f"{action}:matches", "sequence of applied adapters differs from the stated rules",
+                      dict(cfg, read=r, got=got_names, expected=exp_names)))
+        elif len(out.sequence) != len(out.qualities):
+            V.append((f"{action}:length", "sequence and qualities out of step", dict(cfg, read=r)))
+
+
 def run_shard(d):
     if d["kind"] == "cli":
         return run_cli_shard(d)
-    from cutadapt.adapters import LinkedAdapter
+    from cutadapt.adapters import IndexedPrefixAdapters, IndexedSuffixAdapters, LinkedAdapter
     from cutadapt.info import ModificationInfo
     from cutadapt.modifiers import AdapterCutter
     from dnaio import SequenceRecord
@@ -72,7 +103,7 @@ def run_shard(d):
     L = lists(d["tier"])
     nmax = 6 if d["tier"] == "quick" else 7
     R = reads(nmax)
-    res = dict(evals=0, nontrivial=0, multi_round=0, linked_untouched=0, viol=common.Viols(cap=3), samples=[])
+    res = dict(evals=0, nontrivial=0, multi_round=0, linked_untouched=0, default_index_lists=0, viol=common.Viols(cap=3), samples=[])
     V = res["viol"]
     for li in d["idx"]:
         combo = L[li]
@@ -86,39 +117,26 @@ def run_shard(d):
                 if has_linked and action in ("mask", "crop"):
                     continue  # documented as unsupported for linked adapters
                 act = None if action == "none" else action
-                cutter = AdapterCutter(ads, times=times, action=act, index=False)
-                cfg = dict(adapters=[s for _, s in specs], types=[t for t, _ in specs], times=times, action=action)
-                for r in R:
-                    n = len(r)
-                    q = uq(n)
-                    rec = SequenceRecord("r", r, q)
-                    info = ModificationInfo(rec)
-                    out = cutter(rec, info)
-                    res["evals"] += 1
-                    matches, kept = refpipe.adapter_rounds(ads, r, times)
-                    es, eq = refpipe.apply_action(r, q, matches, kept, action)
-                    if len(matches) >= 1:
-                        res["nontrivial"] += 1
-                    if len(matches) >= 2:
-                        res["multi_round"] += 1
-                    got_names = [m.adapter.name for m in info.matches]
-                    exp_names = [m.name for m in matches]
-                    if out.sequence != es or out.qualities != eq:
-                        V.append((f"{action}:read", "trimmed read differs from the stated rules (best score, fewer errors, first given; one "
-                                  "adapter per round on the already trimmed read; action applied once to the original read)",
-                                  dict(cfg, read=r, got=[out.sequence, out.qualities], expected=[es, eq], rounds=exp_names)))
-                    elif got_names != exp_names:
-                        V.append((f"{action}:matches", "sequence of applied adapters differs from the stated rules",
-                                  dict(cfg, read=r, got=got_names, expected=exp_names)))
-                    elif len(out.sequence) != len(out.qualities):
-                        V.append((f"{action}:length", "sequence and qualities out of step", dict(cfg, read=r)))
+                cutters = [(False, AdapterCutter(ads, times=times, action=act, index=False))]
+                if len(ads) > 1 and times < 3 and action == "trim":
+                    # default indexing: whenever no index gets built for this list, the stated rules apply unchanged
+                    c2 = AdapterCutter(ads, times=times, action=act, index=True)
+                    if not any(isinstance(a, (IndexedPrefixAdapters, IndexedSuffixAdapters)) for a in c2.adapters):
+                        cutters.append((True, c2))
+                        res["default_index_lists"] += 1
+                for use_index, cutter in cutters:
+                    cfg = dict(adapters=[s for _, s in specs], types=[t for t, _ in specs], times=times, action=action, index=use_index)
+                    _sweep(cutter, ads, cfg, R, times, action, res)
                 if len(res["samples"]) < 1 and len(combo) == 2 and times == 2 and action == "trim":
                     res["samples"].append(dict(cfg, reads=len(R), example="ACGTAC"))
     return res
 
 
 def run_cli_shard(d):
-    """Bind the seam to the command line: cutadapt --no-index --rename '{id} {adapter_name}' on a corpus."""
+    """Bind the seam to the command line: cutadapt [--no-index] --rename '{id} {adapter_name}' on a corpus."""
+    from cutadapt.adapters import IndexedPrefixAdapters, IndexedSuffixAdapters
+    from cutadapt.modifiers import AdapterCutter
+
     res = dict(evals=0, nontrivial=0, multi_round=0, linked_untouched=0, viol=common.Viols(cap=3), samples=[], cli_runs=0)
     V = res["viol"]
     L = [c for c in lists("quick") if len(c) == 2]
@@ -133,13 +151,18 @@ def run_cli_shard(d):
     for combo in L:
         specs = [MENU[i] for i in combo]
         ads = make(specs)
-        for times in (1, 2):
-            argv = ["--no-index", "-e", "0.34", "-O", "2", "--times", str(times), "--rename", "{id} {adapter_name}", "-o", out]
+        built = any(isinstance(a, (IndexedPrefixAdapters, IndexedSuffixAdapters)) for a in AdapterCutter(ads, index=True).adapters)
+        for times, noindex in ((1, True), (2, True), (1, False), (2, False)):
+            if not noindex and built:
+                continue  # an index is involved: outside this property (C08)
+            argv = (["--no-index"] if noindex else []) + ["-e", "0.34", "-O", "2", "--times", str(times), "--rename", "{id} {adapter_name}",
+                                                          "-o", out]
             for t, s in specs:
                 argv += [flag[t], s]
             r = clih.run_cli(argv + [inp])
             res["cli_runs"] += 1
-            cfg = dict(adapters=[s for _, s in specs], types=[t for t, _ in specs], times=times, action="trim", seam="cli")
+            cfg = dict(adapters=[s for _, s in specs], types=[t for t, _ in specs], times=times, action="trim", seam="cli",
+                       index=not noindex)
             if r.exit != 0:
                 V.append(("cli:failed", f"cutadapt failed: {r.exit} {r.exc} {r.errors()[:1]}", cfg))
                 continue
@@ -179,7 +202,8 @@ def run(tier):
     return R.finish(tot.get("evals", 0), tot.get("nontrivial", 0),
                     "every ordered list of 1-2 (thorough: + a quarter of all triples) adapters from a 20-entry menu x --times {1,2,3} x "
                     "actions {trim,none,lowercase,mask,retain,crop} x ALL reads over ACGT up to length 6 (7) with position-unique qualities, at "
-                    "the AdapterCutter seam; plus a cli.main pass (--no-index, --rename {adapter_name}) over all ordered pairs; non-trivial "
+                    "the AdapterCutter seam (index=False, and the default index=True whenever no index gets built for the list); plus a cli.main pass (with "
+                    "--no-index, and without it when no index gets built; --rename {adapter_name}) over all ordered pairs; non-trivial "
                     "= at least one adapter matched (multi_round counts reads with >= 2 rounds)",
                     True)
 
@@ -196,7 +220,7 @@ def replay(path):
     specs = list(zip(c["types"], c["adapters"]))
     ads = make(specs)
     act = None if c["action"] == "none" else c["action"]
-    cutter = AdapterCutter(ads, times=c["times"], action=act, index=False)
+    cutter = AdapterCutter(ads, times=c["times"], action=act, index=bool(c.get("index", False)))
     r = c["read"]
     rec = SequenceRecord("r", r, uq(len(r)))
     info = ModificationInfo(rec)
